@@ -615,7 +615,7 @@ impl Prop for C04 {
         run(c, o)
     }
     fn rule() -> &'static str {
-        "proptest over six families (incl. statuses recovered from error source chains and the HTTP table through a generated client). (a) round trip: 17 codes x Unicode messages (controls, %, %41, non-ASCII incl. 4-byte, <=300 chars) x details 0-200 bytes x metadata (ASCII/opaque/-bin, repeated, reserved names) through Status::add_header / into_http and back through from_header_map; produced values judged by independent percent/base64 decoders. (b) totality: arbitrary header maps (malformed grpc-status, broken escapes, invalid UTF-8, bad base64). (c) every HTTP status 100..=599 (enumerated exhaustively) through Streaming::new_response, with and without a grpc-status trailer, against the transcribed table. (d) h2 reasons 0..=13 (exhaustive) and unknown ones through From<h2::Error> / from_error, and as RST_STREAM sent by a raw HTTP/2 peer over the in-memory pipe to a generated client (before the response headers, or after headers and half a message), against the transcribed table. Non-trivial: (a) message needs escaping or details length mod 3 != 0 or metadata non-empty; (b) >=1 malformed field; (c) status != 200; (d) all. Distinct = distinct serialised case. Also: status metadata holding an entry named grpc-status-details-bin next to non-empty details (the details win). RST_STREAM(reason) from a raw HTTP/2 peer over the in-memory pipe (before the response headers / after headers and half a message) goes through the same table."
+        "proptest over six families (incl. statuses recovered from error source chains and the HTTP table through a generated client). (a) round trip: 17 codes x Unicode messages (controls, %, %41, non-ASCII incl. 4-byte, <=300 chars) x details 0-200 bytes x metadata (ASCII/opaque/-bin, repeated, reserved names) through Status::add_header / into_http and back through from_header_map; produced values judged by independent percent/base64 decoders. (b) totality: arbitrary header maps (malformed grpc-status, broken escapes, invalid UTF-8, bad base64). (c) every HTTP status 100..=599 (enumerated exhaustively) through Streaming::new_response, with and without a grpc-status trailer, against the transcribed table. (d) h2 reasons 0..=13 (exhaustive) and unknown ones through From<h2::Error> / from_error, and as RST_STREAM sent by a raw HTTP/2 peer over the in-memory pipe to a generated client (before the response headers, or after headers and half a message), against the transcribed table. Non-trivial: (a) message needs escaping or details length mod 3 != 0 or metadata non-empty; (b) >=1 malformed field; (c) status != 200; (d) all. Distinct = distinct serialised case. Also: status metadata holding an entry named grpc-status-details-bin next to non-empty details (the details win). RST_STREAM(reason) from a raw HTTP/2 peer over the in-memory pipe (before the response headers / after headers and half a message) goes through the same table. A trailers block without grpc-status on mapped HTTP statuses; a raw HTTP/2 peer answering HEADERS (content-length: 0), no DATA, then the status in trailers."
     }
     fn assumptions() -> Vec<String> {
         vec![
